@@ -1,11 +1,12 @@
 #!/bin/bash
-# usage: tools/seedcheck.sh <Cnn> [patchdir]
+# usage: tools/seedcheck.sh <Cnn> [patchdir [agent-worktree-path]]
 # Confirms a seeded change and runs the owning check against it, in a scratch worktree of /repo
 # that is created here and removed afterwards. patchdir defaults to /verif/seeded/<Cnn> (needs
 # patch.diff and demo/run.sh). Never touches /repo's working tree.
 set -u
 ID=$1
 DIR=${2:-/verif/seeded/$ID}
+ORIG=${3:-$(cat "$DIR/ORIGIN" 2>/dev/null || echo /tmp/seed/$ID)}
 WT=/tmp/seedcheck-$ID-$$
 export GOFLAGS=-mod=mod GOPROXY=off
 git -C /repo worktree add -q "$WT" HEAD || exit 2
@@ -13,12 +14,12 @@ trap 'git -C /repo worktree remove --force "$WT" >/dev/null 2>&1' EXIT
 git -C "$WT" apply "$DIR/patch.diff" || { echo "patch does not apply"; exit 2; }
 echo "== $ID: $(git -C "$WT" diff --stat | tail -1)"
 (cd "$WT" && go build ./... && go build -tags verif ./...) && echo "build: ok" || echo "build: FAILED"
-echo "pinned suite: $(/verif/tools/baseline.py "$WT" | head -1)"
+echo "pinned suite: $(flock /tmp/verif-baseline.lock /verif/tools/baseline.py "$WT" | head -1)"
 if [ -f "$DIR/demo/run.sh" ]; then
   # the demonstration refers to the seed agent's worktree path: point it at ours
   DEMO=/tmp/seedcheck-demo-$ID-$$
   rm -rf "$DEMO"; cp -r "$DIR/demo" "$DEMO"
-  grep -rl "/tmp/seed/$ID" "$DEMO" | xargs -r sed -i "s#/tmp/seed/$ID.out/demo#$DEMO#g; s#/tmp/seed/$ID#$WT#g"
+  grep -rl "$ORIG" "$DEMO" | xargs -r sed -i "s#$ORIG.out/demo#$DEMO#g; s#$ORIG#$WT#g"
   (cd "$DEMO" && timeout 600 bash ./run.sh >"$DEMO/with.log" 2>&1; echo "demo with the change: exit=$?")
   git -C "$WT" apply -R "$DIR/patch.diff"
   (cd "$DEMO" && timeout 600 bash ./run.sh >"$DEMO/without.log" 2>&1; echo "demo without the change: exit=$?")
